@@ -144,6 +144,9 @@ Section NumberFns.
   Variable format_int_fn : Z -> Z -> string.      (* strconv.FormatInt(v, base) *)
   Variable atoi_fn : string -> option Z.          (* strconv.Atoi; None = error *)
   Variable pow_fn : f64 -> f64 -> f64.            (* math.Pow *)
+  (* strconv.FormatFloat(|x|, 'e', -1, 64) read as an integer and a power of ten: the shortest digit
+     string m (no trailing zero) and k with |x| ~ m * 10^k *)
+  Variable shortest_fn : f64 -> Z * Z.
 
   (* jlib.Number on a string argument *)
   Definition number_of_string (s : string) : lres f64 :=
@@ -159,39 +162,30 @@ Section NumberFns.
 
   Definition itoa (n : Z) : string := format_int_fn n 10.
 
-  (* jlib.multByPow10 *)
-  Definition mult_by_pow10 (x : f64) (n : Z) : f64 :=
-    if (n =? 0) || is_nan x || is_inf x then x
-    else
-      let s := fmt_g x in
-      match ssplit_char "e" s with
-      | [c0] => pf_value (parse_float_fn (c0 ++ "e" ++ itoa n))
-      | [c0; c1] =>
-          let e := match atoi_fn c1 with Some e => e | None => 0 end in
-          pf_value (parse_float_fn (c0 ++ "e" ++ itoa (wrap64 (e + n))))
-      | _ => x
-      end.
-
-  (* jlib.Round; prec = None is the zero OptionalInt (Int = 0) *)
+  (* jlib.Round; prec = None is the zero OptionalInt (Int = 0).  The decimal value of x (its
+     shortest numeral) is rounded half to even at the p-th fraction digit, on the digits: m < 10^17
+     fits a uint64, at most 17 digits are dropped.  (Before the repair the scaled value was first
+     rounded to a double and a 17-digit number next to a tie landed exactly on it.) *)
+  Definition pow10_small (n : Z) : Z := 10 ^ n.
   Definition round (x : f64) (prec : option Z) : f64 :=
     let p := match prec with Some p => p | None => 0 end in
     if feqb x fzero then fzero
-    else if (0 <=? p) && feqb x (ftrunc x) then x
+    else if is_nan x || is_inf x then x
     else
-      let intermed := mult_by_pow10 x p in
-      if is_inf intermed then x
+      let '(m, k) := shortest_fn (fabs x) in
+      if (400 <? p) || (0 <=? k + p) then x                       (* nothing to round *)
+      else if (p <? -400) || (Z.of_nat (slen (itoa m)) <? - (k + p)) then fzero
       else
-        let x' :=
-          if is_halfway intermed then
-            let '(correction, _) := modf (fmod intermed f_two) in
-            let intermed := fadd intermed correction in
-            if fltb fzero intermed then ffloor intermed else fceil intermed
-          else fround intermed in      (* math.Round; was floor(intermed + 0.5), repaired *)
-        if feqb x' fzero then fzero
+        let pw := pow10_small (- (k + p)) in
+        let q := m / pw in
+        let r := m mod pw in
+        let q := if (pw <? 2 * r) || ((2 * r =? pw) && Z.odd q) then q + 1 else q in
+        if q =? 0 then fzero
         else
-          (* scaling back can overflow: the number is then returned unrounded (repaired in /repo) *)
-          let res := mult_by_pow10 x' (wrap64 (- p)) in
-          if is_inf res then x else res.
+          match parse_float_fn (itoa q ++ "e" ++ itoa (- p)) with
+          | PfOk res => if is_inf res then x else if fltb x fzero then fopp res else res
+          | _ => x                      (* the rounded number overflows: returned unrounded *)
+          end.
 
   (* jlib.Power *)
   Definition power (x y : f64) : lres f64 :=
